@@ -42,7 +42,7 @@ def isProc : Entry → Prop
 
 theorem callCb_log (U : Universe) (s : St) (o : Obj) (m : String) (e : Entry) :
     (callCb U s o m e).1.log = e :: s.log := by
-  unfold callCb; simp only; split <;> rfl
+  unfold callCb; simp only; split <;> split <;> rfl
 
 theorem callCb_ext {P : Entry → Prop} (U : Universe) (s : St) (o : Obj) (m : String) (e : Entry)
     (h : P e) : LogExt P s (callCb U s o m e).1 :=
